@@ -67,6 +67,7 @@ theorem bincount_den (bs : List (List Nat)) (m : Nat) (hne : bs ≠ []) :
 
 
 example : bincountAgg ([[1, 1, 3], [0, 5]].map (fun b => bincount b 0)) = [1, 2, 0, 1, 0, 1] := by rfl
+example : ([[1, 1, 3], [0, 5]] : List (List Nat)) ≠ [] := by decide
 
 /-- **histogram_den**: with fixed bin edges the sum of the per-chunk histograms is the histogram of the whole. -/
 theorem histogram_den (edges : List Nat) (bs : List (List Nat)) :
@@ -141,6 +142,7 @@ theorem coarsen_den {α β} (f : List α → β) (d : Nat) (hd : 0 < d) : ∀ (b
     rw [hlen, hb, windows_append d k _ b bs.flatten (by rw [hk, Nat.mul_comm]), List.map_append]
 
 example : coarsenChunked Chunks.sum 2 [[1, 2, 3, 4], [5, 6]] = [3, 7, 11] := by rfl
+example : 0 < 2 ∧ ∀ b ∈ ([[1, 2, 3, 4], [5, 6]] : List (List Nat)), 2 ∣ b.length := by decide
 
 /-- **unique_inverse_den**: the masked-sum formula for `return_inverse` picks, for every element of the array, the
     position of its value in the (strictly sorted) unique values -/
@@ -158,6 +160,7 @@ theorem unique_inverse_den (xs : List Nat) (v : Nat) (hv : v ∈ xs) :
 
 
 example : inverseOf (uniq [3, 1, 3, 2]) 3 = 2 := by rfl
+example : 3 ∈ [3, 1, 3, 2] := by decide
 
 /-- **bincount_weights_den**: with weights chunked like `x`, the zero-padded sum of the per-chunk weighted bincounts
     is the weighted bincount of the whole (exact weights; float weights are validated) -/
@@ -181,6 +184,8 @@ theorem bincount_weights_den (bs : List (List Nat × List Int)) (m : Nat) (hne :
   exact bincountW_getD b.1 b.2 m i
 
 example : bincountAggW [bincountW [1, 1] [2, 3] 0, bincountW [0, 3] [-1, 4] 0] = [-1, 5, 0, 4] := by decide
+example : ([([1, 1], [2, 3]), ([0, 3], [-1, 4])] : List (List Nat × List Int)) ≠ [] ∧
+    ∀ b ∈ ([([1, 1], [2, 3]), ([0, 3], [-1, 4])] : List (List Nat × List Int)), b.1.length = b.2.length := by decide
 
 /-! ### coarsen on ANY chunking: `aligned_coarsen_chunks` + block-by-block `chunk.coarsen` -/
 
